@@ -8,6 +8,7 @@ mod clpz;
 mod fd;
 mod hooks;
 mod search;
+mod unify;
 mod util;
 
 fn main() {
@@ -39,6 +40,8 @@ fn main() {
         ("replay", "clpfd") => clpfd::replay(&args[3]),
         ("search", "hooks") => hooks::search(&tier, only.as_deref()),
         ("replay", "hooks") => hooks::replay(&args[3]),
+        ("search", "unify") => unify::search(&tier, only.as_deref()),
+        ("replay", "unify") => unify::replay(&args[3]),
         ("search", "clpz") => clpz::search(&tier, only.as_deref()),
         ("replay", "clpz") => clpz::replay(&args[3]),
         _ => {
